@@ -11,19 +11,30 @@ type vNet struct {
 	dropAt2 int // a second lost packet (0 or -1: none; packet 0 can only be lost through dropAt)
 	dupAt   int // index of the packet that is delivered twice (-1: none)
 	fwdSeen bool
+	dropFirstFwd bool // lose the first packet that carries a (I-)FORWARD-TSN
+	fwdDropped   bool
 }
 
 func (n *vNet) wire(x, y *Association) int {
 	c := 0
 	for _, raw := range vWriterWake(x) {
 		p := vDecode(raw)
+		lostFwd := false
 		if p != nil {
 			for _, ch := range p.chunks {
 				switch ch.(type) {
 				case *chunkForwardTSN, *chunkIForwardTSN:
 					n.fwdSeen = true
+					if n.dropFirstFwd && !n.fwdDropped {
+						n.fwdDropped, lostFwd = true, true
+					}
 				}
 			}
+		}
+		if lostFwd {
+			n.idx++
+			c++
+			continue
 		}
 		if n.idx != n.dropAt && (n.dropAt2 <= 0 || n.idx != n.dropAt2) {
 			vInbound(y, raw)
@@ -146,11 +157,13 @@ func vh_C07_L1_abandoned_does_not_block() {
 	_, werr := s.WriteSCTP(make([]byte, size), PayloadTypeWebRTCBinary)
 	vassert(werr == nil, "write accepted")
 	// the receiving application may or may not have configured its own side of the stream
-	if vPick(2) == 1 {
+	preOpened := vPick(2) == 1
+	if preOpened {
 		bsPre, _ := b.OpenStream(1, PayloadTypeWebRTCBinary)
 		bsPre.SetReliabilityParams(unorderedFirst, ReliabilityTypeRexmit, 0)
 	}
 	net := &vNet{a: a, b: b, dupAt: -1}
+	net.dropFirstFwd = vPick(2) == 1 // the FORWARD-TSN itself may be lost once
 	// lose the packet carrying the last fragment (index 0 for one fragment, 1 for two)
 	net.dropAt = 0
 	if twoFrag {
@@ -170,6 +183,15 @@ func vh_C07_L1_abandoned_does_not_block() {
 	vassert(bs != nil, "receiver has the stream")
 	if bs == nil {
 		return
+	}
+	if !preOpened {
+		announced := false
+		for len(b.acceptCh) > 0 {
+			if st := <-b.acceptCh; st == bs {
+				announced = true
+			}
+		}
+		vassert(announced, "the stream that carries the later message was announced to the accepting application")
 	}
 	got, ppis := vReadAll(bs, make([]byte, 64))
 	vassert(len(got) == 1, "exactly the later message is delivered (the abandoned one is not, nothing else is lost)")
